@@ -76,6 +76,9 @@ func c17Step(r *rand.Rand, n int, res time.Duration) time.Duration {
 func c17Counter(c *Ctx) {
 	c.Cases("hist", c.N(4000, 300000), func(i int, r *rand.Rand) {
 		n := 1 + r.IntN(12)
+		if r.IntN(10) == 0 { // many buckets (the constructor accepts any count)
+			n = pick(r, []int{63, 64, 65, 100, 120, 130})
+		}
 		res := pick(r, c17Res)
 		start := baseTime.Add(time.Duration(r.Int64N(int64(400 * 24 * time.Hour)))).Add(time.Duration(r.Int64N(1e9)))
 		freeze(start)
@@ -246,6 +249,9 @@ func c17Counter(c *Ctx) {
 func c17Ratio(c *Ctx) {
 	c.Cases("ratio", c.N(2000, 100000), func(i int, r *rand.Rand) {
 		n := 1 + r.IntN(12)
+		if r.IntN(10) == 0 { // many buckets (the constructor accepts any count)
+			n = pick(r, []int{63, 64, 65, 100, 120, 130})
+		}
 		res := pick(r, c17Res)
 		start := baseTime.Add(time.Duration(r.Int64N(int64(400 * 24 * time.Hour)))).Add(time.Duration(r.Int64N(1e9)))
 		freeze(start)
